@@ -32,7 +32,12 @@ def run_simple(prop, spec, tier, known_ids, t0, args):
     mc = None
     if spec['level'] == 'model_checking':
         mc = spec['mc'](results)
-    return G.report(prop, tier, spec['level'], results, spec['rule'], t0, src=spec['src'], model_checking=mc)
+    extra_viol = []
+    for key in spec.get('digest_equal', []):
+        vals = {r.get('config'): r.get('extra', {}).get(key) for r in results}
+        if len(set(vals.values())) > 1:
+            extra_viol.append({'op': f'cross-configuration digest {key}', 'config': ','.join(sorted(vals)), 'msg': f'results expressed through named members differ between configurations: {vals}', 'input_bits': [], 'got_bits': [str(v) for v in vals.values()], 'want_bits': []})
+    return G.report(prop, tier, spec['level'], results, spec['rule'], t0, src=spec['src'], model_checking=mc, extra_viol=extra_viol)
 
 def mc_c02(results):
     st = tr = 0
@@ -56,6 +61,34 @@ def mc_c14(results):
             'state_graph_note': 'states = finite float/double bit patterns visited; transitions = nextFloat/prevFloat (and n-step chains) executed on the implementation; every transition is compared with the reference model, so validated == transitions'}
 
 PROPS = {
+ 'C04': dict(src='drivers/c04.cpp', level='exploration', configs=['default', 'quat_wxyz'], digest_equal=['named_member_digest_float', 'named_member_digest_double'],
+   technique='exhaustive enumeration of a finite rotation set (integer quaternions, icosians, axis-angle lattice, 10^-j neighbourhoods of every branch boundary and gimbal-lock set, each +-1..3 ulp) x vector lattice through every quaternion/matrix/axis-angle/Euler entry point, against a long-double Hamilton/Rodrigues reference, in both quaternion storage orders',
+   text='q*v, mat3/4_cast, quat_cast (all four largest-component branches and ties), products, angle/axis/angleAxis, eulerAngles/quat(euler), qua(u,v) incl. parallel/opposite/nearly-opposite pairs, inverse/conjugate/normalize, all 12 gtx eulerAngleABC orders + 6 two-angle forms + yawPitchRoll/orientate with extractEulerAngle round trips, dual quaternions; the same source is built with the default and the WXYZ layout and a digest of every result expressed through named members must be identical in both.',
+   rule='ROT (57 800 quick / 152 812 thorough quaternions) x VEC3L; ROT_small^2 for products; 55^3 (87^3) angle triples incl. +-pi/2 +-10^-j; NEAR_OPPOSITE pairs on both sides of the fallback threshold. Non-trivial = case inside the stated domain (unit quaternion up to rounding, non-degenerate vectors).'),
+ 'C08': dict(src='drivers/c08.cpp', level='exploration', configs=['default', 'lh', 'zo', 'lh_zo'], flags=['-DC08_HAVE_INFINITEPERSPECTIVE_LH_RH'],
+   technique='exhaustive enumeration of the parameter lattice (l<r, b<t, near<far, fovy, aspect, width/height, viewports) x every builder variant in all four clip-control build configurations; oracle = the view-volume corners must map to the clip-cube corners, dispatch must be bit-identical to the selected suffixed variant',
+   text='Every ortho/frustum/perspective/perspectiveFov/infinitePerspective/tweakedInfinitePerspective variant (RH/LH x NO/ZO) maps its eight view-volume corners (infinite: near corners + depth monotone and bounded along 2^k.near) to the clip cube; perspective == symmetric frustum; perspectiveFov == perspective(w/h); in each of the four macro configurations the unsuffixed and half-suffixed builders are bit-identical to the fully suffixed variant the macros select; project/unProject/pickMatrix against the formula, mutual inverses, cube -> viewport x [0,1].',
+   rule='full product of the DESIGN section C08 parameter grids (quick) / denser grids (thorough), float and double, in each configuration; cases whose error bound cannot be formed (singular to working precision) are counted trivial.'),
+ 'C09': dict(src='drivers/c09.cpp', level='exploration', configs=['default', 'lh'], flags=['-DC09_RECOMPOSE_DOUBLE'],
+   technique='exhaustive enumeration of base matrices x vectors x axes x angle ladders x shear parameters through every transform builder, against M * E with E built entrywise in long double; lookAt frames and TRS(+skew,+perspective) compositions through decompose/recompose; default and left-handed builds',
+   text='translate/rotate/scale/shear (fast and _slow forms), gtx transform/transform2/rotate_vector/rotate_normalized_axis/matrix_transform_2d/matrix_interpolation helpers equal M times the elementary matrix; lookAtRH/LH are rigid, send eye to 0, the view direction to -z/+z and up into the +y half-plane, and lookAt follows the configured handedness; recompose(decompose(M)) == M over rotation set x scales x translations x skews x perspective kinds with every quaternion-extraction branch reached.',
+   rule='M(36 base matrices) x VEC3L(378) x 80 axes x 133 (805) angles x shear grids; 3.39M (31M) TRS compositions; invalid lookAt frames skipped (trivial).'),
+ 'C10': dict(src='drivers/c10.cpp', level='exploration',
+   technique='exhaustive enumeration of complete small-integer matrix grids ({-2..2}^4, {-2..2}^9, {0,1}^16 / {-1,0,1}^16 / {-1,0,1,2}^16) and scaled / near-singular families, against an exact __int128 adjugate/determinant reference with the condition number computed exactly',
+   text='determinant (Leibniz, multiplicativity, transpose invariance), inverse (both residuals bounded by c.N.u.cond, exact for unimodular integer matrices), inverseTranspose, affineInverse, operator/ (mat/mat, mat/vec, vec/mat), gtx adjugate/diagonal*/qr/rq/matrix_query, integer determinant. By multilinearity a full {0,1}/{-1,0,1} grid is a complete identity test of the cofactor polynomials.',
+   rule='SMALLMAT grids complete; scaled copies 2^k; near-singular M0 + 2^-p E_ij; matrices beyond the stated condition bound get the determinant check only.'),
+ 'C12': dict(src='drivers/c12.cpp', level='exploration',
+   technique='exhaustive enumeration of vector lattices ({-2..2}^L, tagged vectors, 2^+-20 scalings, unit-vector angle ladders, nearly-degenerate pairs, critical refraction ratios and both float neighbours) for L=1..4 and the scalar overloads, against long-double definitions',
+   text='dot, length, distance, cross (determinant formula, orthogonality, anti-commutativity), normalize, reflect (formula, length preservation, involution), refract (Snell, exactly zero on total internal reflection, branch decided exactly where k is exactly computable), faceforward (sign decided exactly where certain), gtx norm/projection/perpendicular/orthonormalize/vector_angle/closest_point/normal/mixed_product, float and double.',
+   rule='VSET^2, NEAR pairs, UNIT^2 x ETA, FFSPEC; degenerate inputs (zero vectors, parallel pairs where the function is undefined) skipped as trivial.'),
+ 'C13': dict(src='drivers/c13.cpp', level='exploration',
+   technique='exhaustive enumeration of quaternion pairs (rotation table x axes x a separation ladder from 1e-9 to pi-1e-9 that hits every float on both sides of the linear-fallback switch and of cos=0, both signs) x interpolation factors x spin counts, against the great-circle point evaluated in long double',
+   text='slerp (end points, unit norm, on the arc, shorter arc, angular position t.Omega, never NaN, symmetry), mix (oriented arc, conditioning-aware), slerp with spins, lerp, shortMix, fastMix, squad, dual-quaternion lerp; both sides of every code branch counted.',
+   rule='PAIRS (42 336 quick / 397 488 thorough) + ROT^2 x t13 (x k=-3..3); cases beyond the stated separation for mix/fastMix are trivial.'),
+ 'C19': dict(src='drivers/c19.cpp', level='exploration',
+   technique='exhaustive enumeration of all 2^24 8-bit RGB triples (and 16-bit lattices) through the integer YCoCg-R pair on every carrier type, of consecutive-float pairs on dense grids (all floats of [0,1] in the thorough tier) through the sRGB pair for five gammas, and of the 8-bit RGB cube / hue grids through HSV',
+   text='rgb2YCoCgR/YCoCgR2rgb exactly lossless on all 2^24 triples for u8,i16,u16,i32,u32,i64 carriers; sRGB pair: range, fixes 0 and 1, monotone between adjacent grid points, mutual inverse within the bound derived from the curve constants, alpha bits untouched; HSV: hue in [0,360), round trips both ways; float YCoCg round trips; saturation/luminosity weights.',
+   rule='ALL 2^24 triples; grids k/16384 + toe k/262144 + both breakpoints +-2ulp (thorough: every consecutive float pair in [0,1]); hue 360k/3600 + sector boundaries +-2ulp.'),
  'C01': dict(src='drivers/c01.cpp', level='exploration', parts=13, flags=['-O1'],
    technique='exhaustive enumeration of the alphabet (component-wise function or operator) x (overload shape) x (vector length 1-4) x (element type) x (qualifier) with complete products of a special-value lattice as inputs, every tuple placed in every lane; oracle = the scalar overload of GLM itself on each component',
    text='Every component-wise function and operator of common/exponential/trigonometric/integer/vector_relational and their ext/gtc/gtx twins is instantiated for every length 1-4, highp/mediump/lowp and every element type it accepts (float, double, int, uint, i8, u8, i16, u16, i64, u64, bool), in every overload shape (vec-vec, vec-scalar, scalar-vec, vec-vec1, vec1-vec, scalar-edge forms, out-parameter forms, compound assignment, ++/--), and evaluated on the complete n-ary product of the special-value lattice; component i of the vector result is compared with the scalar overload on component i (identical bits for selection/rounding/comparison/integer/single-libm-call functions, value equality for arithmetic operators, rounding tolerance for mix/smoothstep/mod/fma, 2^-8 relative for lowp inversesqrt). Matrix abs/mix/equal on all nine shapes.',
